@@ -171,6 +171,32 @@ def builders_stay(ctx, rule):
 
 
 
+def lines_into_stored_builder(ctx, rule):
+    """lines added after construction go into the builder stored in the directory's trie node, and the matcher is recompiled from that builder"""
+    from ..origin import IDENTITY_CALLS as _IDC
+    facts = ctx.facts
+    PT = tuple(c for c in _IDC if c not in ("core::clone::Clone::clone", "core::mem::take"))
+    n = 0
+    for fn in facts.fns_matching(r"^ignore_files::filter::IgnoreFilter::(add_file|add_globs|recompile)(::\{closure#\d+\})?$"):
+        owner = fn.def_.split("::{closure")[0].split("::")[-1]
+        for bi, t in fn.calls():
+            if fn.macro(t.mac):
+                continue
+            which = "add_line" if t.callee.is_("GitignoreBuilder::add_line", "ignore::gitignore::GitignoreBuilder::add_line") else \
+                ("build" if t.callee.is_("GitignoreBuilder::build", "ignore::gitignore::GitignoreBuilder::build") else None)
+            if which is None:
+                continue
+            n += 1
+            os_ = origins(fn, t.args[0], PT)
+            stored = bool(os_) and all(a.kind == "call" and (fn.blocks[a.data].term.callee.def_ or "").startswith("radix_trie::") and (fn.blocks[a.data].term.callee.def_ or "").endswith(("::get_mut", "::get"))
+                                       and any(st[0] == "f" and st[2] == "builder" for st in a.proj) for a in os_)
+            ctx.require(stored, rule, "stored-builder:%s:%s" % (owner, which), "IgnoreFilter::%s: %s works on the builder stored in the directory's trie node" % (owner, which),
+                        fn.loc(t.line), detail=str([(a.kind, a.proj[:3]) for a in os_])[:200],
+                        fail="IgnoreFilter::%s calls %s on something other than the builder stored in the trie node (a copy): the node's builder does not accumulate, so the next "
+                             "file or glob list for the same directory restarts from a stale builder and drops the patterns added before" % (owner, which))
+    ctx.floor(rule, "add_line / build sites after construction", n, 3)
+
+
 def simplify_rule(ctx, rule):
     """simplify_path is unconditional and used on both the key and the probe side (shared with C14)"""
     facts = ctx.facts
@@ -445,6 +471,7 @@ def run(ctx):
     # ---- R03.7 nothing takes a builder / node out of the trie
     try:
         builders_stay(ctx, "R03.7")
+        lines_into_stored_builder(ctx, "R03.7")
     except Skip:
         pass
 
